@@ -59,18 +59,19 @@ def mk_case(n, order, slots, extras, Dk):
 
 class Concurrent(Suite):
     name = "concurrent"
+    parallel = True
 
     def cases(self, ctx, budget):
         out = []
         # exhaustive: every answer permutation for n = 1..3 (quick) / ..4 (thorough), two slot patterns
-        maxn = 3 if budget == "quick" else 4
+        maxn = 4
         for n in range(1, maxn + 1):
             for perm in itertools.permutations(range(n)):
                 for slots in ([0] * n, list(range(n)), [1] * n):
                     for extras in ([], [(0, "notif")], [(0, "notif"), (1, "foreign")]):
                         out.append(mk_case(n, [("resp", i) for i in perm], slots, extras, [4] * n))
         rng = ctx.sub_rng("c18", budget)
-        m = 700 if budget == "quick" else 30000
+        m = 4000 if budget == "quick" else 100000
         for _ in range(m):
             n = rng.randint(1, 4)
             k = rng.randint(0, n + 2)
@@ -81,7 +82,7 @@ class Concurrent(Suite):
             slots = sorted(rng.randint(0, 5) for _ in range(k))
             extras = [(rng.randint(0, 5), rng.choice(["notif", "foreign", "req"])) for _ in range(rng.randint(0, 4))]
             out.append(mk_case(n, order, slots, extras, [rng.randint(1, 5) for _ in range(n)]))
-        ctx.exhaustive_parts.append("concurrent: every permutation of the answer order for 1..3 (quick) / 1..4 (thorough) callers")
+        ctx.exhaustive_parts.append("concurrent: every permutation of the answer order for 1..4 callers")
         return out
 
     def impl(self, case):
